@@ -9,6 +9,7 @@
 #![allow(dead_code, non_snake_case, non_camel_case_types, unused_imports)]
 mod rng;
 mod sx;
+mod ty;
 mod ops;
 
 use std::io::{BufRead, Write};
